@@ -28,6 +28,7 @@ RULE = (
     "task executed exactly once, the catalog on disk holds exactly the input records, and the root's results equal a plain single-process "
     "run. Non-trivial: >=3 ranks and a run in which a wildcard receive had >=2 eligible senders or a message was overtaken by a later "
     "message of another sender; distinct = case digest."
+    ' Extensions: one case in three places the ranks on up to three nodes (different processor names); iter_unordered also with rank0_node_only.'
 )
 ASSUMPTIONS = [
     "decided on an executable model of MPI point-to-point and collective semantics (non-overtaking per sender/receiver/communicator, wildcard matching, eager or synchronous standard sends), not on an MPI implementation",
